@@ -6,10 +6,12 @@ from props import engine_common
 ENGINE2_FILES = ["zz_verif_engine2_test.go", "zz_verif_engine2_monitor_test.go", "zz_verif_engine_test.go",
                  "zz_verif_engine_monitor_test.go", "zz_verif_value_test.go"]
 
-THEOREMS_C15E = ["Slock.C15E.reply_is_before_lock", "Slock.C15E.reply_is_before_unlock", "Slock.C15E.refused_unchanged_lock",
-                 "Slock.C15E.refused_unchanged_unlock", "Slock.C15E.value_update_is_processFrame"]
+THEOREMS_C15E = ["Slock.C15E.reply_is_before_lock", "Slock.C15E.reply_is_before_unlock", "Slock.C15E.queued_grant_reply_is_before",
+                 "Slock.C15E.refused_unchanged_lock", "Slock.C15E.refused_unchanged_unlock", "Slock.C15E.value_update_is_processFrame",
+                 "Slock.C15E.relock_value", "Slock.C15E.update_value", "Slock.C15E.unlock_value", "Slock.C15E.p0b_reply_carries_no_value"]
 THEOREMS_C17R = ["Slock.C17R.reachable_refcounts", "Slock.C17R.drain_partial"]
-THEOREMS_C10 = ["Slock.C10.gate_lock", "Slock.C10.gate_unlock", "Slock.C10.no_journal_off_leader", "Slock.C10.follower_expiry_deferred"]
+THEOREMS_C10 = ["Slock.C10.gate_lock", "Slock.C10.gate_unlock", "Slock.C10.no_journal_off_leader", "Slock.C10.follower_expiry_deferred",
+                "Slock.C10.follower_expiry_ended_only_after", "Slock.C10.follower_defers_again"]
 
 
 def classify_engine2(op, impl):
@@ -73,3 +75,57 @@ def run_c17_records(ctx):
     ctx.lake_build(["Slock.Properties.C17Records"])
     ctx.audit("Slock.Properties.C17Records", THEOREMS_C17R)
     run_engine2(ctx, ["C17:"])
+
+
+def replay_engine2(prop, path, prefixes=None):
+    """./check Cxx --replay <file>: re-run the recorded `engine2 …` op line(s) on the REAL engine and on the model; print both sides'
+    disagreements and the monitors that fire."""
+    import vlib
+    ctx = vlib.Ctx(prop, "quick")
+    try:
+        d = json.load(open(path))
+        lines = []
+
+        def collect(o):
+            if isinstance(o, dict):
+                for v in o.values():
+                    collect(v)
+            elif isinstance(o, list):
+                for v in o:
+                    collect(v)
+            elif isinstance(o, str):
+                for tok in o.split("ops="):
+                    if tok.startswith("engine2 "):
+                        lines.append(tok.strip())
+        collect(d)
+        if not lines:
+            print("no engine2 op line in", path)
+            return 2
+        rp = os.path.join(ctx.tmp, "replay.txt")
+        open(rp, "w").write("\n".join(dict.fromkeys(lines)) + "\n")
+        exe = ctx.build_harness("server", only=ENGINE2_FILES)
+        if not exe:
+            print(ctx.broken[-1]["detail"])
+            return 2
+        outdir = ctx.run_harness(exe, "engine2-replay", 1, extra={"VERIF_REPLAY": rp})
+        if not outdir:
+            print(ctx.broken[-1]["detail"])
+            return 2
+        dis = ctx.diff(outdir, "engine2-replay")
+        for (i, op, impl, model) in dis or []:
+            print("MODEL/IMPL DISAGREE:", engine_common.first_divergence(impl, model))
+        n = 0
+        mp = os.path.join(outdir, "engine2-replay.mon")
+        if os.path.exists(mp):
+            for line in open(mp):
+                line = line.strip()
+                if line:
+                    m = json.loads(line)
+                    if prefixes is None or any(m["signature"].startswith(px) for px in prefixes):
+                        n += 1
+                        print(f"REPRODUCED [{m['signature']}] {m['what']}")
+        if n == 0 and not dis:
+            print("replay ran clean: the real engine and the model agree, no monitor fired")
+        return 1 if (n or dis) else 0
+    finally:
+        ctx.cleanup()
